@@ -15,6 +15,19 @@ pub mod k1 {
     pub use self::secp256k1::*;
 }
 
+/// Verification hook: both secp256k1 backends reachable from one build (add-only, guarded).
+#[cfg(all(fuellabs_fuel_vm_verif, feature = "std"))]
+pub mod verif_k1 {
+    /// The portable (no-std) backend.
+    pub mod portable {
+        pub use super::super::k1::k256::*;
+    }
+    /// The standard-library backend.
+    pub mod standard {
+        pub use super::super::k1::secp256k1::*;
+    }
+}
+
 /// secp256r1 implementations
 pub mod r1 {
     pub mod p256;
